@@ -123,6 +123,11 @@ func (r *realPatcher) patchPodBatchLabel(pods []*corev1.Pod, ctx *batchcontext.B
 			klog.InfoS("Pod batchID is not a number, skip patching", "pod", klog.KObj(pod), "rollout", r.logKey)
 			continue
 		}
+		// the label is user-writable: a batch id that names no batch of the plan consumes no budget
+		if podBatchID < 1 || podBatchID > len(plannedUpdatedReplicasForBatches) {
+			klog.InfoS("Pod batchID is out of range, skip patching", "pod", klog.KObj(pod), "rollout", r.logKey)
+			continue
+		}
 		plannedUpdatedReplicasForBatches[podBatchID-1]--
 	}
 	klog.InfoS("updatedButUnpatchedPods amount calculated", "amount", len(updatedButUnpatchedPods),
